@@ -24,7 +24,7 @@ def worlds():
     from mc.worlds import registry
 
     d = {k: v for k, v in registry.WORLDS.items() if not k.endswith("(closed)")}  # a frozen-bar variant of a path world below
-    d.update({k: v for k, v in registry.PATH_WORLDS.items() if k != "deribit(many)+uni"})  # same markets as deribit+uni, built for C05's bar-index question
+    d.update({k: v for k, v in registry.PATH_WORLDS.items() if k not in ("deribit(many)+uni", "deribit(cut)")})  # same markets as deribit+uni, built for C05's bar-index question
 
     def overdraft():
         # an account that may go into the red (Actuator(allow_negative_balance=True)): oversized purchases are accepted, a negative balance is a debt
